@@ -131,6 +131,14 @@ def check_dense(np, sparse, layout):
         shift = lp - d
         if np.abs(shift - shift[:, :1]).max() > 1e-9:
             bad.append(('shift-by-row-constant', 'log-probabilities differ from the dense logits by more than a per-row constant'))
+    # stored logits of tiny magnitude are still stored logits (only exact zeros are pruned entries)
+    for dt in (np.float32, np.float64):
+        tiny = np.array([[3e-9, -2.0, -3.0], [-1.0, -5e-9, -4.0], [0.0, 1e-12, -1.0]], dtype=dt)
+        n += 1
+        line = layout.TextLine(id='l', logits=sparse.csc_matrix(tiny), characters=['a', 'b', '~'])
+        d = line.get_dense_logits()
+        if not np.array_equal(d[tiny != 0], tiny[tiny != 0]) or not np.all(d[tiny == 0] == -80):
+            bad.append(('dense-keeps-stored', 'stored logits of tiny magnitude (%s): dense %r from stored %r' % (np.dtype(dt).name, d.tolist(), tiny.tolist())))
     # engine output is float32 and un-normalised: frames of very different magnitude on one line (a confident frame next to a fully
     # pruned one or to one whose scores are all strongly negative); each row must still be normalised on its own
     wide = [np.array([[36.0, 2.0, 1.0], [0.0, 0.0, 0.0], [-70.0, -71.0, -75.0], [1.0, 30.0, 2.0]]),
